@@ -27,7 +27,7 @@ LastComp(r) == LET cs == SelectSeq(r.lines, LAMBDA x : x.comp) IN IF cs = <<>> T
 \* Generator guards: keep away from what the properties leave open (see DESIGN.md 3.2).
 Admissible(l, r) ==
     \* the value of a label that is immediately followed by an origin / alignment / zone directive is open
-    /\ (l.k \in {"org", "orgz", "zone", "align"} /\ Active(r.cstk)) => LastComp(r) # "lab"
+    /\ (l.k \in {"org", "orgl", "orgz", "zone", "align"} /\ Active(r.cstk)) => LastComp(r) # "lab"
     \* a condition over an undefined (or valueless) symbol is open
     \* (== against an undefined symbol is false in the documentation and in the code alike: generated)
     /\ (l.k \in {"if", "elif"} /\ Evaluated(l, r.cstk)) => r.defs[l.n] # -1
@@ -78,7 +78,7 @@ Contiguity ==
     Ok => \A j \in 2..Len(SrcOrder) :
             LET o == SrcOrder[j]
                 prevSame == SelectSeq(SubSeq(SrcOrder, 1, j - 1), LAMBDA x : x.zone = o.zone)
-            IN  (o.k \notin {"org", "orgz", "align"} /\ prevSame # <<>>)
+            IN  (o.k \notin {"org", "orgl", "orgz", "align"} /\ prevSame # <<>>)
                     => o.addr = Last(prevSame).addr + Last(prevSame).size
 ReservedEqualsEmitted == Ok => \A j \in 1..Len(res.objs) :
                                   res.objs[j].k \in ByteKinds => Len(res.objs[j].bytes) = res.objs[j].size
@@ -94,7 +94,7 @@ LabelIsNextAddress ==
             LET o == SrcOrder[j]
                 v == Lookup(res.labs, o.n, o.file, o.region)
             IN  /\ v = o.addr
-                /\ (j < Len(SrcOrder) /\ SrcOrder[j + 1].k \notin {"org", "orgz", "zone", "align"}
+                /\ (j < Len(SrcOrder) /\ SrcOrder[j + 1].k \notin {"org", "orgl", "orgz", "zone", "align"}
                         /\ SrcOrder[j + 1].zone = o.zone) => v = SrcOrder[j + 1].addr
 
 (* C04 *)
